@@ -140,6 +140,33 @@ where
             ));
         }
     }
+    // ---- clone_from into a table built from other weights ---------------------------
+    // (every field must be replaced: weights() of the destination is the source's)
+    {
+        let other_ws: Vec<W> = vec![W::parse(&"1".to_string()).unwrap_or(W::zero_val()); n % 5 + 1];
+        if let Caught::Ok(Ok(mut other)) = guarded(|| WeightedAliasIndex::<W>::new(other_ws.clone())) {
+            let r = guarded(|| {
+                other.clone_from(&alias);
+                other.weights()
+            });
+            match r {
+                Caught::Ok(b2) => {
+                    let same = b2.len() == back.len() && b2.iter().zip(back.iter()).all(|(x, y)| x.bits_eq(*y) || x == y);
+                    if !same && deferred.is_none() {
+                        deferred = Some((
+                            "model-mismatch(weights)".to_string(),
+                            format!("after other.clone_from(&table), other.weights() = {:?} but table.weights() = {:?} (input {:?})", lits(&b2), lits(&back), lits(&ws)),
+                        ));
+                    }
+                    if format!("{:?}", other) != format!("{:?}", alias) && deferred.is_none() {
+                        deferred = Some(("model-mismatch(weights)".to_string(), format!("clone_from result prints differently from its source (input {:?})", lits(&ws))));
+                    }
+                }
+                Caught::Panic { msg, loc } => return Err(("panic-weights".into(), format!("clone_from + weights() of new({:?}) panicked: {msg} @ {loc}", lits(&ws)))),
+                Caught::Budget(_) => unreachable!(),
+            }
+        }
+    }
     if W::IS_FLOAT {
         let l1: f64 = (0..n).map(|i| (back[i].to_f64() / wmax - scaled[i]).abs()).sum::<f64>() / (eps * sum_scaled);
         let k = if W::TY == WTy::F32 { 0 } else { 1 };
